@@ -23,24 +23,49 @@ func propC20(c *Ctx) {
 	fEnabled := w.Field("shovel/config", "Integration", "Enabled")
 	fSources := w.Field("shovel/config", "Integration", "Sources")
 	fName := w.Field("shovel/config", "Source", "Name")
-	// the append of the new task
+	// the append of the new task (loadTasks itself, or the helper that assembles the tasks: buildTasks)
 	var appendCall *ssa.Call
 	ntTask := extractOf(lm.newTask, 0)
-	for _, ci := range callsNamed(lt, "builtin append") {
-		call := ci.(*ssa.Call)
-		if vs, ok := varargValues(call.Call.Args[1]); ok && len(vs) == 1 && vs[0] == ntTask {
+	var isNewTask func(v ssa.Value, d int) bool
+	isNewTask = func(v ssa.Value, d int) bool { // the task NewTask returned, also when a helper hands it on
+		if v == ntTask {
+			return true
+		}
+		if call, k := resultOf(v); call != nil && d < 3 {
+			for _, r := range lm.reg.Results(call, k) {
+				if isNewTask(r, d+1) {
+					return true
+				}
+			}
+		}
+		return false
+	}
+	for _, ci := range lm.reg.Calls() {
+		call, isCall := ci.(*ssa.Call)
+		if !isCall || calleeName(call) != "builtin append" {
+			continue
+		}
+		if vs, ok := varargValues(call.Call.Args[1]); ok && len(vs) == 1 && isNewTask(vs[0], 0) {
 			appendCall = call
 		}
+	}
+	liftTo := func(in ssa.Instruction, fn *ssa.Function) ssa.Instruction {
+		for _, at := range lm.reg.chain(in) {
+			if at.Parent() == fn {
+				return at
+			}
+		}
+		return nil
 	}
 	if appendCall == nil {
 		c.Violation("R20.1", "loadTasks/append-task", lt.Pos(), "the task returned by NewTask is not appended to the result")
 	} else {
+		af := appendCall.Parent() // the function that assembles the tasks
 		// returned slice is the appended one
 		retOK := false
-		for _, r := range returnsOf(lt) {
-			vals := returnValues(r)
-			if len(vals) == 2 && isNilConst(vals[1]) {
-				for _, lf := range phiLeaves(vals[0]) {
+		for _, rv := range lm.reg.SuccessReturns() {
+			if len(rv.Vals) == 2 {
+				for _, lf := range phiLeaves(rv.Vals[0]) {
 					if lf.Val == ssa.Value(appendCall) {
 						retOK = true
 					}
@@ -49,7 +74,7 @@ func propC20(c *Ctx) {
 		}
 		c.Check("R20.1", "loadTasks/append-task", appendCall.Pos(), retOK, "every constructed task is appended to the returned slice")
 		enT, _ := func() (t, f []Edge) {
-			allInstrs(lt, func(in ssa.Instruction) {
+			lm.reg.AllInstrs(func(in ssa.Instruction) {
 				u, ok := in.(*ssa.UnOp)
 				if !ok || u.Op != token.MUL {
 					return
@@ -61,7 +86,7 @@ func propC20(c *Ctx) {
 			})
 			return
 		}()
-		c.Check("R20.1", "loadTasks/enabled-test", appendCall.Pos(), len(enT) > 0 && guardedByEdges(lt, appendCall, enT), "a task is built only when the integration's Enabled flag is set")
+		c.Check("R20.1", "loadTasks/enabled-test", appendCall.Pos(), len(enT) > 0 && lm.reg.Guarded(appendCall, enT), "a task is built only when the integration's Enabled flag is set")
 		// look-ups
 		nLk := 0
 		lm.reg.AllInstrs(func(in ssa.Instruction) {
@@ -92,16 +117,18 @@ func propC20(c *Ctx) {
 						good = false
 					}
 				}
-				if lfn == lt {
-					good = good && guardedByEdges(lt, appendCall, t)
+				if lfn == af {
+					good = good && guardedByEdges(af, appendCall, t)
+				} else if lm.reg.Guarded(appendCall, t) {
+					// the look-up stands in a caller of the assembling function, before it
 				} else {
 					// in a helper: its error is handed on and the task is appended only when it is nil
-					site, _ := lm.reg.Lift(lk).(*ssa.Call)
+					site, _ := liftTo(lk, af).(*ssa.Call)
 					if site == nil || !callErrorArmReturns(site) {
 						good = false
 					} else if e, has := errResult(site); has && e != nil {
 						isNil, _ := nilTestEdges(e)
-						good = good && guardedByEdges(lt, appendCall, isNil)
+						good = good && guardedByEdges(af, appendCall, isNil)
 					}
 				}
 			}
@@ -115,12 +142,28 @@ func propC20(c *Ctx) {
 		if nLk < 1 {
 			c.Violation("R20.1", "loadTasks/lookups", lt.Pos(), fmt.Sprintf("expected the source-config and the source-client look-ups, found %d", nLk))
 		}
-		// NewTask error
-		if e, ok := errResult(lm.newTask); ok && e != nil {
+		// NewTask error (handed on unchanged by a helper that ends in `return NewTask(…)`: judged where it is tested)
+		ntCall := lm.newTask
+		for d := 0; d < 3 && ntCall.Parent() != af; d++ {
+			e0, _ := errResult(ntCall)
+			fn := ntCall.Parent()
+			passes := e0 != nil
+			for _, r := range returnsOf(fn) {
+				if vals := returnValues(r); len(vals) == 0 || vals[len(vals)-1] != e0 {
+					passes = false
+				}
+			}
+			site, _ := lm.reg.site[fn].(*ssa.Call)
+			if !passes || site == nil {
+				break
+			}
+			ntCall = site
+		}
+		if e, ok := errResult(ntCall); ok && e != nil {
 			isNil, nonNil := nilTestEdges(e)
-			good := guardedByEdges(lt, appendCall, isNil) && len(nonNil) > 0
+			good := ntCall.Parent() == af && guardedByEdges(af, appendCall, isNil) && len(nonNil) > 0
 			for _, ed := range nonNil {
-				if g, _ := errorArmLeaves(lt, ed, isNil, nil); !g {
+				if g, _ := errorArmLeaves(af, ed, isNil, nil); !g {
 					good = false
 				}
 			}
@@ -132,7 +175,7 @@ func propC20(c *Ctx) {
 		okOuter := false
 		if lm.igVal != nil {
 			if s, idx, ok := elemOf(lm.igVal); ok && isInduction(idx) {
-				if call, k := resultOf(s); call != nil && k == 0 {
+				if call, k := resultOf(lm.reg.Resolve(stripConv(s))); call != nil && k == 0 {
 					if f := staticCallee(call); f != nil && f.Name() == "AllIntegrations" {
 						okOuter = true
 					}
@@ -391,9 +434,49 @@ func propC20(c *Ctx) {
 			if len(cands) == 1 {
 				fRestart = cands[0]
 			}
+			// … or kept, with its mutex, in a small value of its own (`gens generations{mut, curr}`): the
+			// member of that type in a struct type of the package
+			if fRestart == nil {
+				scope := run.Pkg.Pkg.Scope()
+				for _, name := range scope.Names() {
+					tn, isTN := scope.Lookup(name).(*types.TypeName)
+					if !isTN {
+						continue
+					}
+					st, isSt := tn.Type().Underlying().(*types.Struct)
+					if !isSt {
+						continue
+					}
+					for i := 0; i < st.NumFields(); i++ {
+						if types.Identical(st.Field(i).Type(), run.Params[2].Type()) {
+							cands = append(cands, st.Field(i))
+						}
+					}
+				}
+				if len(cands) == 1 {
+					fRestart = cands[0]
+				}
+			}
 		}
 		if fRestart == nil {
 			fatalf("anchor: field shovel.Manager.restart not found")
+		}
+	}
+	// the mutex that guards it: restartMut, or the only mutex of the struct that holds it
+	restartMutName := "restartMut"
+	if owner := structOfField(run.Pkg.Pkg, fRestart); owner != nil {
+		var muts []string
+		has := false
+		for i := 0; i < owner.NumFields(); i++ {
+			if n := namedOf(owner.Field(i).Type()); n != nil && n.Obj().Pkg() != nil && n.Obj().Pkg().Path() == "sync" && (n.Obj().Name() == "Mutex" || n.Obj().Name() == "RWMutex") {
+				muts = append(muts, owner.Field(i).Name())
+				if owner.Field(i).Name() == restartMutName {
+					has = true
+				}
+			}
+		}
+		if !has && len(muts) == 1 {
+			restartMutName = muts[0]
 		}
 	}
 	// chanOfToken: v is the stop channel of the token value tok: tok itself, or its channel member
@@ -957,7 +1040,7 @@ func propC20(c *Ctx) {
 					continue
 				}
 				n++
-				held, why := oracle.HeldAt(fn, ref, fa.X, "restartMut")
+				held, why := oracle.HeldAt(fn, ref, fa.X, restartMutName)
 				c.Check("R20.5", fmt.Sprintf("%s/Manager.restart#%d", fnName(fn), n), instrPos(ref), held,
 					"access to Manager.restart: "+why)
 			}
@@ -1150,4 +1233,25 @@ func (m *loadTasksModel) isSourceRefOfSameCollection(v ssa.Value) bool {
 		return false
 	}
 	return sameVar(m.val(cs), m.val(is)) || m.val(cs) == m.val(is)
+}
+
+// structOfField: the struct type of package pkg that declares field f
+func structOfField(pkg *types.Package, f *types.Var) *types.Struct {
+	scope := pkg.Scope()
+	for _, name := range scope.Names() {
+		tn, ok := scope.Lookup(name).(*types.TypeName)
+		if !ok {
+			continue
+		}
+		st, ok := tn.Type().Underlying().(*types.Struct)
+		if !ok {
+			continue
+		}
+		for i := 0; i < st.NumFields(); i++ {
+			if st.Field(i) == f {
+				return st
+			}
+		}
+	}
+	return nil
 }
